@@ -500,3 +500,42 @@ func genRace(r rng, seed uint64, id string) *sdl.Program {
 	}
 	return p
 }
+
+// genWrapName: an acyclic program in which a named provider X is substituted, around its
+// initialization, by a wrapper W of another type; a holder requests X by name through a
+// field that only the wrapper fits (an interface X does not implement, or any).
+func genWrapName(r rng, seed uint64, id string) *sdl.Program {
+	p := &sdl.Program{ID: id, Seed: seed, Family: FamWrapName, NIfaces: 3}
+	x := &sdl.Type{Name: id + "T0", Ifaces: []int{0}, Init: r.p(0.5), Lazy: r.p(0.3)}
+	w := &sdl.Type{Name: id + "T1", Ifaces: []int{0, 1}, Init: r.p(0.3)}
+	h := &sdl.Type{Name: id + "T2", Init: r.p(0.5)}
+	p.Types = []*sdl.Type{x, w, h}
+	xi := &sdl.Instance{ID: "c0", Type: x.Name}
+	if r.p(0.6) {
+		xi.Alias = "svc"
+	}
+	p.Instances = []*sdl.Instance{xi, {ID: "c1", Type: h.Name}}
+	pt := &sdl.Point{Field: "F0", Kind: sdl.KIface, Iface: 1, Sel: sdl.SelName, Name: p.NameOf(xi), Optional: r.p(0.3)}
+	if r.p(0.25) {
+		pt.Kind = sdl.KAny
+	}
+	if r.p(0.25) {
+		pt.Kind, pt.Iface = sdl.KIface, 0 // both the component and its wrapper fit
+	}
+	h.Points = []*sdl.Point{pt}
+	if r.p(0.4) {
+		// an unrelated provider and an ordinary by-type point
+		o := &sdl.Type{Name: id + "T3", Ifaces: []int{2}, Init: true}
+		p.Types = append(p.Types, o)
+		p.Instances = append(p.Instances, &sdl.Instance{ID: "c2", Type: o.Name})
+		h.Points = append(h.Points, &sdl.Point{Field: "F1", Kind: sdl.KIface, Iface: 2, Sel: sdl.SelType})
+	}
+	at := pick(r, []string{sdl.CbAfter, sdl.CbAfter, sdl.CbBefore, sdl.CbBeforeInst})
+	class := "plain"
+	if at == sdl.CbBeforeInst {
+		class = pick(r, []string{"inst", "smart"})
+	}
+	p.Procs = []*sdl.Proc{{ID: "pp0", Class: class, OrderClass: pick(r, orderClasses), Order: pick(r, []int{-3, 0, 5, 100}),
+		Rules: []*sdl.Rule{{Target: "c0", At: at, Action: "substitute", Sub: "s0", SubType: w.Name}}}}
+	return p
+}
